@@ -13,6 +13,7 @@ import Proofs.DmrParse
 import Proofs.DmrServer
 import Proofs.DmrDemo
 import Proofs.DmrLookup
+import Proofs.DmrSrc
 namespace Pydap.C11
 open Pydap Pydap.Dmr
 
@@ -143,5 +144,66 @@ example : distinctVars demo ∧ distinctDims demo := by
   constructor
   · unfold distinctVars; decide
   · unfold distinctDims; decide
+
+/-! ## the tie by translation: the *source text* of `_dim_key`, `get_dim_names`, `get_dim_sizes`
+
+`Pydap.Gen.src_dim_key`, `src_get_dim_names`, `src_get_dim_sizes` (PydapModel/Generated/DmrSrc.lean) are the MiniPy
+syntax trees of the three functions of parsers/dmr.py, regenerated on every run by `harness/py2lean.py`.  The `for`
+loops are MiniPy `forIn` statements; `element.findall("Dim")` is the input (each element as its attribute dict,
+`elemOf`), `named_dimensions` the dict built by the insertion log (`ndVal`); `_dim_key(name)` is inlined. -/
+
+open MiniPy in
+/-- **`_dim_key`** is the model's `dimKey`, for every name: `find("/", 1) == -1` is `noSlashAfterFirst`,
+    `replace("/", "")` removes every slash -/
+theorem C11_source_dim_key (name : Str) :
+    runItem [("name", .str (codesOf name))] Gen.src_dim_key "@ret" = .ok (.str (codesOf (dimKey name))) :=
+  src_dim_key_eq name
+
+open MiniPy in
+/-- **`get_dim_names`** is the model's `getDimNames`, for every element and any number of `Dim` children: the
+    interpreted loop skips the anonymous ones (`continue`) and appends `_dim_key(name)` for the others, in order -/
+theorem C11_source_dim_names (e : XNode) :
+    runItem [("dimension_elements", .elems ((e.findall "Dim".toList).map elemOf))] Gen.src_get_dim_names "@ret"
+      = .ok (mkS ((getDimNames e).map codesOf)) :=
+  src_get_dim_names_eq e
+
+open MiniPy in
+/-- **`get_dim_sizes`** (called with a dimension table) is the model's `varShape`, for every table, every element and
+    any number of `Dim` children whose anonymous sizes are digit runs: the same extents in document order, or the same
+    exception (`int(None)`: TypeError; a name missing from the table: KeyError) raised at the same element.
+    (`named_dimensions=None`, where named `Dim`s are skipped, has no counterpart in the model and is not covered;
+    signed / blank-padded size texts are outside MiniPy's `int()`.) -/
+theorem C11_source_dim_sizes (nd : List (Str × Int)) (e : XNode) (hs : sizesPlain (e.findall "Dim".toList)) :
+    runItem [("dimension_elements", .elems ((e.findall "Dim".toList).map elemOf)), ("named_dimensions", ndVal nd)]
+      Gen.src_get_dim_sizes "@ret"
+      = (match varShape nd e with | .ok l => .ok (.ilist l) | .error er => .error (errOf er)) :=
+  src_get_dim_sizes_eq nd e hs
+
+-- non-vacuity: <Dim name="/x"/><Dim size="5"/><Dim name="/g/y"/> gives ["x", "/g/y"] and (3, 5, 2); a missing
+-- dimension raises KeyError, an anonymous Dim without size TypeError
+def exVar : XNode := .mk "Int32".toList [("name".toList, "v".toList)] none
+  [.mk "Dim".toList [("name".toList, "/x".toList)] none [], .mk "Dim".toList [("size".toList, "5".toList)] none [],
+   .mk "Attribute".toList [] none [], .mk "Dim".toList [("name".toList, "/g/y".toList)] none []]
+def exNd : List (Str × Int) := [("x".toList, 7), ("/g/y".toList, 2), ("x".toList, 3)]
+open MiniPy in
+example : runItem [("dimension_elements", .elems ((exVar.findall "Dim".toList).map elemOf))] Gen.src_get_dim_names "@ret"
+    = .ok (.slist [[120], [47, 103, 47, 121]]) := by rfl
+open MiniPy in
+example : runItem [("dimension_elements", .elems ((exVar.findall "Dim".toList).map elemOf)), ("named_dimensions", ndVal exNd)]
+    Gen.src_get_dim_sizes "@ret" = .ok (.ilist [3, 5, 2]) ∧ varShape exNd exVar = .ok [3, 5, 2] := ⟨by rfl, by rfl⟩
+example : sizesPlain (exVar.findall "Dim".toList) := by
+  intro d hd hn t ht
+  simp [exVar, XNode.findall, XNode.children, XNode.tag] at hd
+  rcases hd with rfl | rfl | rfl <;> simp [XNode.get, XNode.attrs] at hn ht
+  subst ht; decide
+open MiniPy in
+example : runItem [("dimension_elements", .elems ((exVar.findall "Dim".toList).map elemOf)), ("named_dimensions", ndVal [])]
+    Gen.src_get_dim_sizes "@ret" = .error .keyError := by rfl
+open MiniPy in
+example : runItem [("dimension_elements", .elems [[]]), ("named_dimensions", ndVal [])]
+    Gen.src_get_dim_sizes "@ret" = .error .typeError := by rfl
+open MiniPy in
+example : runItem [("name", .str (codesOf "/g/y".toList))] Gen.src_dim_key "@ret" = .ok (.str (codesOf "/g/y".toList)) ∧
+    runItem [("name", .str (codesOf "/x".toList))] Gen.src_dim_key "@ret" = .ok (.str (codesOf "x".toList)) := ⟨by rfl, by rfl⟩
 
 end Pydap.C11
